@@ -6,7 +6,8 @@ export GOFLAGS=-mod=mod GOPROXY=off GOSUMDB=off GOTOOLCHAIN=local
 mkdir -p build evidence
 python3 tools/gen_all.py
 python3 -c "import sys; sys.path.insert(0,'/verif/harness/py'); import vlib; vlib.coq_makefile()"
-(cd coq && timeout 3000 make -j16)
+# full .vo build of the development; -k so that one broken file cannot keep the others from being built
+(cd coq && timeout 3000 make -k -j16) || echo "WARNING: some Coq files did not build (each check rebuilds and reports its own targets)"
 # warm the Go build cache with the overlay-injected harness packages
 python3 - <<'PY'
 import sys
